@@ -15,9 +15,14 @@ fn unary(u: &mut Unstructured, inner: Spec) -> arbitrary::Result<Spec> {
     // secondary parameters
     match &mut s {
         Spec::Gte(_, c) | Spec::Lte(_, c) => *c = u.int_in_range(-400i32..=400)? as f64 / 8.0,
-        Spec::AlmaCustom(_, _, sg, of) => {
+        Spec::AlmaCustom(_, n, sg, of) => {
             *sg = [0.5, 1.0, 2.0, 4.0, 6.0, 8.0][u.int_in_range(0..=5usize)?];
             *of = [0.0, 0.25, 0.5, 0.85, 1.0][u.int_in_range(0..=4usize)?];
+            // the listed f32 finding (gaussian weights underflow: 0/0) reaches down to sigma = 8 when the window is a single value:
+            // exp(-(offset (N+1))^2 sigma^2 / (2 N^2)) leaves f32 for sigma > 12 N / (N+1)
+            if *n == 1 && *sg > 6.0 {
+                *sg = 6.0;
+            }
         }
         Spec::EmaAlpha(_, n, al) => *al = (*n as f64 + 1.0) * (1 + u.int_in_range(0..=7u32)?) as f64 / 8.0,
         Spec::LaguerreFilter(_, g) => *g = [0.0, 0.1, 0.5, 0.8, 0.9, 0.99][u.int_in_range(0..=5usize)?],
